@@ -154,7 +154,7 @@ func (e *Engine) sprintf(format Value, va Value, st *State) *Term {
 		}
 	}
 	e.stubs["fmt.Sprintf(opaque result)"]++
-	return e.fresh("fmt", KStr, 0)
+	return e.freshStr(st, "fmt", e.strMax)
 }
 
 func (e *Engine) vrtIntrinsic(fn *ssa.Function, vn string, args []Value, st *State) (Value, bool) {
@@ -182,12 +182,12 @@ func (e *Engine) vrtIntrinsic(fn *ssa.Function, vn string, args []Value, st *Sta
 		return FPFromBV(e.nondet("f64", KBV, 64)), true
 	case "String":
 		e.needTruePC(st, "vrt.String")
-		v := e.nondet("str", KStr, 0)
 		if strTheory {
-			st.assumes = And(st.assumes, IntBin("<=", StrLen(v), IntC(int64(e.strMax))))
-			v.Max = int64(e.strMax)
+			v := e.freshStr(st, "nd_str", e.strMax)
+			e.nondets = append(e.nondets, Nondet{Name: v.Name, Tag: "str", T: v, Max: -1})
+			return v, true
 		}
-		return v, true
+		return e.nondet("str", KStr, 0), true
 	case "Len":
 		e.needTruePC(st, "vrt.Len")
 		mx := args[0].(*Term)
@@ -251,6 +251,32 @@ func (e *Engine) vrtIntrinsic(fn *ssa.Function, vn string, args []Value, st *Sta
 		st.heap[o] = zero(pt)
 		e.optRecs[o] = rec
 		return &PtrV{Alts: []PAlt{{G: TrueT, O: o}}}, true
+	case "Printable":
+		t := args[0].(*Term)
+		if t.IsConst {
+			ok := true
+			for i := 0; i < len(t.S); i++ {
+				c := t.S[i]
+				if !(c >= 32 && c <= 126) && c != '\t' && c != '\n' && c != '\r' {
+					ok = false
+				}
+			}
+			return BoolC(ok), true
+		}
+		return sEach(t, func(c *Term) *Term {
+			return Or(byteRange(c, 32, 126), Eq(c, BVC(8, 9)), Eq(c, BVC(8, 10)), Eq(c, BVC(8, 13)))
+		}), true
+	case "Ident":
+		t := args[0].(*Term)
+		return sEach(t, func(c *Term) *Term {
+			return Or(byteRange(c, 'a', 'z'), byteRange(c, 'A', 'Z'), byteRange(c, '0', '9'), Eq(c, BVC(8, '.')), Eq(c, BVC(8, '_')))
+		}), true
+	case "ConfigFile":
+		// the environment holds one configuration file: unreadable, unparsable, or listing one type
+		p := e.freshStr(st, "cfgpath", 6)
+		st.assumes = And(st.assumes, Not(Eq(p, StrC(""))), sEach(p, func(c *Term) *Term { return byteRange(c, 33, 126) }))
+		e.cfgFile = &cfgFileEnv{Path: p, ReadErr: args[0].(*Term), YamlErr: args[1].(*Term), Typ: args[2].(*Term)}
+		return p, true
 	case "Generator":
 		// vrtGenerator() *generator.Generator: an opaque non-nil generator over the fixed universe
 		pt := fn.Signature.Results().At(0).Type().Underlying().(*types.Pointer).Elem()
@@ -348,3 +374,10 @@ func mapEntries(st *State, m *MapV) []MEnt {
 	}
 	return out
 }
+
+type cfgFileEnv struct {
+	Path             *Term
+	ReadErr, YamlErr *Term
+	Typ              *Term
+}
+
